@@ -2,6 +2,7 @@
 import EinoV.Model.C17
 import EinoV.Model.C17Late
 import EinoV.Model.C17Utils
+import EinoV.Model.C17Readers
 namespace EinoV.Expected.C17
 def facts : EinoV.C17.Facts :=
   { storeByIndex := true, goroutineRecovers := true, taskPassedAsArg := true,
@@ -10,4 +11,6 @@ def facts : EinoV.C17.Facts :=
 def ctxFacts : EinoV.C17.CtxFacts := { notScoped := true, fromCaller := true }
 /-- family `utils`: the request object is made inside the call -/
 def ufacts : EinoV.C17.UFacts := { freshPerCall := true }
+/-- family `readers`: the concatenation writes nothing into what it was given -/
+def concatFacts : EinoV.C17.ConcatFacts := { arrayAllocates := true, msgsAllocates := true }
 end EinoV.Expected.C17
